@@ -101,7 +101,7 @@ PROPS["C13"] = {
     "level_note": "JSON over-approximation; bounds above; reductions R1/R2.",
 }
 PROPS["C09"] = {
-    "groups": [{"run": "^vpH_C09_T_"}],
+    "groups": [{"run": "^vpH_C09_T_|^vpH_C11_T_stop_vs_notify$"}],
     "bounds": {"quick": "stop variants Stop, StopWithContext{}, {DeleteKey}, {DeleteKey,WaitForDemote}; the stop call is placed by the explorer at EVERY store-operation leg (before issue, between issue and application, between application and response, after the response) and at every quiescent instant (timer boundary) of (a) a leader during 2.5 heartbeats, (b) a follower during the 500ms in which its leader vanishes and its acquisition round runs (jitter wait, Create in flight), (c) the first second after Start with a Create latency of up to 7s (longer than Stop's own 5s wait); repeated stops and stop-then-start; after the return: 6s (or 15s) more of virtual time, then the claim, OnPromote count, store-operation issue log, surviving goroutines and state are checked"},
     "outside": "stops during reconnect verification (C11 harnesses); OnDemote callbacks that block; StopWithContext with a caller context that is cancelled",
     "assumptions": [],
@@ -109,7 +109,7 @@ PROPS["C09"] = {
     "level_note": "Reductions R1/R2 (a stop between two atomics of one critical section is not explored); bounded windows as listed.",
 }
 PROPS["C08"] = {
-    "groups": [{"run": "^vpH_C08_T_|^vpH_C01_T_stop_delete$|^vpH_C09_T_stop_after_cancel$|^vpH_C07_T_leftover$"}],
+    "groups": [{"run": "^vpH_C08_T_|^vpH_C01_T_stop_delete$|^vpH_C09_T_stop_after_cancel$|^vpH_C07_T_leftover_takeover$"}],
     "bounds": {"quick": "one real instance, H=1s, elected directly or through the follower path (watcher running), promotion callback returning at once or blocking on its context; first term ended by each cause: record replaced (heartbeat conflict), record deleted, three failing refreshes, record taken by a later incarnation while refreshes hang (periodic validation), health threshold, preemption observed through the watcher before the next heartbeat, Stop, StopWithContext{WaitForDemote}, StopWithContext{DeleteKey,WaitForDemote}; then (unless stopped) the blocking record is removed, the instance leads a second term through the real follower path and is stopped; heartbeat and validation tickers coinciding (two causes in one tick); audits at every quiescent point"},
     "outside": "connection-loss and reconnect-verification demotions (C11 harnesses); more than two terms; callbacks that never return without cancellation",
     "assumptions": ["leadership edges are observed inside the Metrics.SetIsLeader callback, i.e. at the flag change itself"],
